@@ -698,6 +698,23 @@ def render_translations(ctx):
 
     fn = ctx.fn("Matrix.render", "R04.11")
     params = [a.arg for a in fn.args.args]
+    from ..flow import bindings as _bindings
+
+    binds = {}
+    for tg, v, n_ in _bindings(fn):
+        if isinstance(tg, ast.Name):
+            binds.setdefault(tg.id, []).append(v)
+
+    def refers_to(name, dim, depth=0):
+        """the reference is the viewport dimension `dim`, possibly through locals, each of which is only ever bound to the
+        dimension (or a local standing for it) or to relative_length (the fallback)"""
+        if name == dim:
+            return all(isinstance(v, ast.Name) and v.id == "relative_length" for v in binds.get(name, []))
+        vals = binds.get(name, [])
+        if not vals or depth > 3 or name in params:
+            return False
+        main = [v for v in vals if not (isinstance(v, ast.Name) and v.id == "relative_length")]
+        return bool(main) and all(isinstance(v, ast.Name) and refers_to(v.id, dim, depth + 1) for v in main)
     for e_len in (True, False):
         for f_len in (True, False):
             def extra(t, e_len=e_len, f_len=f_len):
@@ -732,7 +749,7 @@ def render_translations(ctx):
                         kw = {k.arg: k.value for k in v.keywords if k.arg}
                         ref = kw.get("relative_length")
                         plumb = all(isinstance(kw.get(p_), ast.Name) and kw[p_].id == p_ for p_ in ("ppi", "font_size", "font_height", "viewbox") if p_ in params)
-                        good = isinstance(ref, ast.Name) and ref.id == dim and plumb
+                        good = isinstance(ref, ast.Name) and refers_to(ref.id, dim) and plumb
                 detail.append("%s %s" % (fld, "resolved against %s" % dim if good else "not resolved (or against the wrong reference)"))
                 ok = ok and good and len(got) == 1
             ctx.ob("R04.11", cons, ok, "; ".join(detail) + "; exit %s" % pth.exit, fn.lineno,
@@ -741,4 +758,5 @@ def render_translations(ctx):
     for dim in ("width", "height"):
         fb = [st for st in ast.walk(fn) if isinstance(st, ast.Assign) and len(st.targets) == 1 and isinstance(st.targets[0], ast.Name) and st.targets[0].id == dim]
         ok = all(isinstance(st.value, ast.Name) and st.value.id == "relative_length" for st in fb)
-        ctx.ob("R04.11", "Matrix.render[%s fallback]" % dim, ok, "; ".join(ast.unparse(st) for st in fb) or "none", fn.lineno, "a missing %s falls back to relative_length, nothing else" % dim)
+        ctx.ob("R04.11", "Matrix.render[%s fallback]" % dim, ok, "; ".join(ast.unparse(st) for st in fb) or "none (the fallback works on a local standing for it)", fn.lineno,
+               "a missing %s falls back to relative_length, nothing else" % dim)
